@@ -554,63 +554,63 @@ the client and state packages that the property's root functions can reach throu
 moves its obligation, however far from the property's anchors it is made. -/
 
 /-- [C01] everything the roots of C01 can reach is as pinned -/
-theorem closure_C01 : Facts.closure_C01 = some "743cd3821b5244aa" := by decide
+theorem closure_C01 : Facts.closure_C01 = some "c4012f9bb989a232" := by decide
 
 /-- [C02] everything the roots of C02 can reach is as pinned -/
-theorem closure_C02 : Facts.closure_C02 = some "743cd3821b5244aa" := by decide
+theorem closure_C02 : Facts.closure_C02 = some "c4012f9bb989a232" := by decide
 
 /-- [C03] everything the roots of C03 can reach is as pinned -/
-theorem closure_C03 : Facts.closure_C03 = some "a64e3d6a56c25e99" := by decide
+theorem closure_C03 : Facts.closure_C03 = some "c768c87a59e8075a" := by decide
 
 /-- [C04] everything the roots of C04 can reach is as pinned -/
-theorem closure_C04 : Facts.closure_C04 = some "743cd3821b5244aa" := by decide
+theorem closure_C04 : Facts.closure_C04 = some "c4012f9bb989a232" := by decide
 
 /-- [C05] everything the roots of C05 can reach is as pinned -/
-theorem closure_C05 : Facts.closure_C05 = some "743cd3821b5244aa" := by decide
+theorem closure_C05 : Facts.closure_C05 = some "c4012f9bb989a232" := by decide
 
 /-- [C06] everything the roots of C06 can reach is as pinned -/
-theorem closure_C06 : Facts.closure_C06 = some "a64e3d6a56c25e99" := by decide
+theorem closure_C06 : Facts.closure_C06 = some "c768c87a59e8075a" := by decide
 
 /-- [C07] everything the roots of C07 can reach is as pinned -/
-theorem closure_C07 : Facts.closure_C07 = some "a64e3d6a56c25e99" := by decide
+theorem closure_C07 : Facts.closure_C07 = some "c768c87a59e8075a" := by decide
 
 /-- [C08] everything the roots of C08 can reach is as pinned -/
-theorem closure_C08 : Facts.closure_C08 = some "61e2152ce0aee2a7" := by decide
+theorem closure_C08 : Facts.closure_C08 = some "f2e9f0f8012d4b92" := by decide
 
 /-- [C09] everything the roots of C09 can reach is as pinned -/
-theorem closure_C09 : Facts.closure_C09 = some "49d436d0d9d4f912" := by decide
+theorem closure_C09 : Facts.closure_C09 = some "697baf3a53e84a5e" := by decide
 
 /-- [C10] everything the roots of C10 can reach is as pinned -/
-theorem closure_C10 : Facts.closure_C10 = some "a0c6f16ed96b164b" := by decide
+theorem closure_C10 : Facts.closure_C10 = some "0147731905c66491" := by decide
 
 /-- [C11] everything the roots of C11 can reach is as pinned -/
-theorem closure_C11 : Facts.closure_C11 = some "e63f1c046ce3efa8" := by decide
+theorem closure_C11 : Facts.closure_C11 = some "ec13fabaefea5760" := by decide
 
 /-- [C12] everything the roots of C12 can reach is as pinned -/
-theorem closure_C12 : Facts.closure_C12 = some "68bd1bedf06165e6" := by decide
+theorem closure_C12 : Facts.closure_C12 = some "6ac47a78efe04476" := by decide
 
 /-- [C13] everything the roots of C13 can reach is as pinned -/
-theorem closure_C13 : Facts.closure_C13 = some "6ad8081978964757" := by decide
+theorem closure_C13 : Facts.closure_C13 = some "6c71dfbe7a1f736b" := by decide
 
 /-- [C14] everything the roots of C14 can reach is as pinned -/
-theorem closure_C14 : Facts.closure_C14 = some "68bd1bedf06165e6" := by decide
+theorem closure_C14 : Facts.closure_C14 = some "6ac47a78efe04476" := by decide
 
 /-- [C15] everything the roots of C15 can reach is as pinned -/
 theorem closure_C15 : Facts.closure_C15 = some "eae4d61ba5f0516e" := by decide
 
 /-- [C16] everything the roots of C16 can reach is as pinned -/
-theorem closure_C16 : Facts.closure_C16 = some "a64e3d6a56c25e99" := by decide
+theorem closure_C16 : Facts.closure_C16 = some "c768c87a59e8075a" := by decide
 
 /-- [C17] everything the roots of C17 can reach is as pinned -/
-theorem closure_C17 : Facts.closure_C17 = some "d21fde94adf5bbb3" := by decide
+theorem closure_C17 : Facts.closure_C17 = some "7f964e1a7d96abcf" := by decide
 
 /-- [C18] everything the roots of C18 can reach is as pinned -/
-theorem closure_C18 : Facts.closure_C18 = some "23bf8e7a73919824" := by decide
+theorem closure_C18 : Facts.closure_C18 = some "8edb04fc69f5e153" := by decide
 
 /-- [C19] everything the roots of C19 can reach is as pinned -/
-theorem closure_C19 : Facts.closure_C19 = some "81c369138ea214b4" := by decide
+theorem closure_C19 : Facts.closure_C19 = some "922962c565023d04" := by decide
 
 /-- [C20] everything the roots of C20 can reach is as pinned -/
-theorem closure_C20 : Facts.closure_C20 = some "a64e3d6a56c25e99" := by decide
+theorem closure_C20 : Facts.closure_C20 = some "c768c87a59e8075a" := by decide
 
 end FactsCheck
